@@ -691,7 +691,7 @@ def _outcome(case, st):
 
 def call_c10(case):
     """case: {s, kw, settings (without RELATIVE_BASE / strictness), b1, b2, R} -> outcomes of the
-    same input under (off,b1) (strict,b1) (strict,b2) (R,b1) (R,b2) + probe events of every run."""
+    same input under (off,b1) (strict,b1) (strict,b2) (R,b1) (R,b2) (strict+R,b1) (strict+R,b2) + probe events of every run."""
     base = dict(case.get("settings") or {})
     runs = {}
     probes = []
@@ -700,7 +700,10 @@ def call_c10(case):
                         ("outS", {"RELATIVE_BASE": case["b1"], "STRICT_PARSING": True}),
                         ("outS2", {"RELATIVE_BASE": case["b2"], "STRICT_PARSING": True}),
                         ("outR", {"RELATIVE_BASE": case["b1"], "REQUIRE_PARTS": case["R"]}),
-                        ("outR2", {"RELATIVE_BASE": case["b2"], "REQUIRE_PARTS": case["R"]})):
+                        ("outR2", {"RELATIVE_BASE": case["b2"], "REQUIRE_PARTS": case["R"]}),
+                        # both switches at once: STRICT_PARSING asks for every part whatever REQUIRE_PARTS lists
+                        ("outSR", {"RELATIVE_BASE": case["b1"], "STRICT_PARSING": True, "REQUIRE_PARTS": case["R"]}),
+                        ("outSR2", {"RELATIVE_BASE": case["b2"], "STRICT_PARSING": True, "REQUIRE_PARTS": case["R"]})):
         st = dict(base)
         st.update(extra)
         o, r = _outcome(case, st)
